@@ -65,6 +65,11 @@ def run_filter(h, words, dct, ncat, cats, rng, position_coded, dup=False, single
             tag = tall[::2]
         elif layout == 'T':
             tag = np.ascontiguousarray(tag.T).T
+        elif layout == 'f64':
+            # matrices in numpy's default precision (the values are dyadic: nothing changes but the element type)
+            tag, dep = tag.astype(np.float64), dep.astype(np.float64)
+        elif layout == 'f64F':
+            tag = np.asfortranarray(tag.astype(np.float64))
         scores.append(ScoringResult(tag, dep))
     kw = {} if neg8 is None else {'large_negative_value': neg8 / 8.0}
     tag_in = [proj(s.tag_scores) for s in scores]
@@ -127,7 +132,7 @@ def run(tier):
         dct = {w: sorted(rng.sample(range(1, ncat + 1), rng.randint(0, min(ncat, 6)))) for w in rng.sample(vocab, rng.randint(0, 8))}
         ev = run_filter(h, words, dct, ncat, cats, rng, False, dup=rng.random() < 0.3, single=len(words) == 1 and rng.random() < 0.7,
                         neginf=rng.choice([0.0, 0.0, 0.1, 0.4]), neg8=rng.choice([None, None, -32768, -8000]),
-                        layout=rng.choice(['C', 'C', 'F', 'slice', 'strided', 'T']))
+                        layout=rng.choice(['C', 'C', 'F', 'slice', 'strided', 'T', 'f64', 'f64F']))
         add(ev, {'words': words, 'dict': {w: len(c) for w, c in dct.items()}, 'ncat': ncat, 'src': 'random'})
     # call histories on one dictionary object: the same object with the category list in another order, and edited in place
     n_hist = 0
